@@ -26,3 +26,223 @@ class EvaluateMetrics:
     def ensures_exact_issues(metrics, config, result):
         return result == expected_issues(metrics["method_count"], metrics["loc"], metrics["has_keyword"],
                                          config.max_methods, config.max_loc, config.check_keywords)
+
+
+# ====================================================================================== heuristics.py (Python classes)
+import ast  # noqa: E402
+
+from pyvc.api import Any, Dict, TupleOf, mk, ih, opaque, reveal, use  # noqa: E402
+from contracts._nodes import PyNode, TSNode  # noqa: E402
+from contracts._common import ViolationT, PathT  # noqa: E402,F401  (also registers the ast.walk external)
+
+H = "src/linters/srp/heuristics.py::"
+
+
+def is_property_decorator(d):
+    return isinstance(d, ast.Name) and d.id == "property"
+
+
+def py_is_public_method(n):
+    """Property text / docs: public methods = function definitions in the class body that are neither
+    @property nor underscore-prefixed (private and dunder members are not counted)."""
+    return (isinstance(n, (ast.FunctionDef, ast.AsyncFunctionDef))
+            and not any(is_property_decorator(d) for d in n.decorator_list)
+            and not n.name.startswith("_"))
+
+
+@contract(H + "_is_private_method", props=["C16"], types=dict(method_name=Str), returns=Bool)
+class IsPrivateMethod:
+    def value(method_name):
+        return method_name.startswith("_")
+
+
+@contract(H + "has_property_decorator", props=["C16"], types=dict(func_node=PyNode), returns=Bool)
+class HasPropertyDecorator:
+    def requires(func_node):
+        return func_node is not None
+
+    def value(func_node):
+        return any(is_property_decorator(d) for d in func_node.decorator_list)
+
+
+@contract(H + "_is_countable_method", props=["C16"], types=dict(node=PyNode), returns=Bool)
+class IsCountableMethod:
+    def requires(node):
+        return node is not None
+
+    def value(node):
+        return not any(is_property_decorator(d) for d in node.decorator_list) and not node.name.startswith("_")
+
+
+@contract(H + "has_responsibility_keyword", props=["C16"], types=dict(class_name=Str, keywords=SeqOf(Str)), returns=Bool)
+class HasResponsibilityKeyword:
+    def value(class_name, keywords):
+        return any(keyword in class_name for keyword in keywords)
+
+
+def py_method_count(body):
+    """Property text: the number of public methods of the class."""
+    return sum(1 for n in body if py_is_public_method(n))
+
+
+def py_is_func(n):
+    return isinstance(n, (ast.FunctionDef, ast.AsyncFunctionDef))
+
+
+def py_countable(n):
+    return not any(is_property_decorator(d) for d in n.decorator_list) and not n.name.startswith("_")
+
+
+# The three filters are opaque: the fusion proof below is pure equational reasoning over their unfolding lemmas.
+@opaque
+def py_funcs(body: SeqOf(PyNode)) -> SeqOf(PyNode):
+    return [n for n in body if py_is_func(n)]
+
+
+@opaque
+def py_countables(s: SeqOf(PyNode)) -> SeqOf(PyNode):
+    return [n for n in s if py_countable(n)]
+
+
+@opaque
+def py_publics(body: SeqOf(PyNode)) -> SeqOf(PyNode):
+    return [n for n in body if py_is_public_method(n)]
+
+
+@lemma(props=["C16"], types=dict(x=PyNode, t=SeqOf(PyNode)), name="py-filter-cons")
+def py_cons_lemma(x, t):
+    reveal(py_countables, [x] + t)
+    reveal(py_countables, t)
+    return py_countables([x] + t) == ([x] if py_countable(x) else []) + py_countables(t)
+
+
+@lemma(props=["C16"], types=dict(body=SeqOf(PyNode)), name="py-filter-unfold")
+def py_unfold_lemma(body):
+    if len(body) == 0:
+        reveal(py_funcs, body)
+        reveal(py_publics, body)
+        reveal(py_countables, body)
+        return py_funcs(body) == [] and py_publics(body) == [] and py_countables(body) == []
+    reveal(py_funcs, body)
+    reveal(py_funcs, body[1:])
+    reveal(py_publics, body)
+    reveal(py_publics, body[1:])
+    return (py_funcs(body) == ([body[0]] if py_is_func(body[0]) else []) + py_funcs(body[1:])
+            and py_publics(body) == ([body[0]] if py_is_public_method(body[0]) else []) + py_publics(body[1:]))
+
+
+@lemma(props=["C16"], types=dict(body=SeqOf(PyNode)), name="py-filter-fusion")
+def py_fusion_lemma(body):
+    """Filtering function nodes and then countable ones == filtering public methods in one pass."""
+    use(py_unfold_lemma, body)
+    if len(body) == 0:
+        return py_countables(py_funcs(body)) == py_publics(body)
+    ih(py_fusion_lemma, body[1:])
+    if py_is_func(body[0]):
+        use(py_cons_lemma, body[0], py_funcs(body[1:]))
+        return py_countables(py_funcs(body)) == py_publics(body)
+    return py_countables(py_funcs(body)) == py_publics(body)
+
+
+@lemma(props=["C16"], types=dict(body=SeqOf(PyNode)), name="py-filter-length-is-count")
+def py_len_lemma(body):
+    use(py_unfold_lemma, body)
+    if len(body) == 0:
+        return len(py_publics(body)) == py_method_count(body)
+    ih(py_len_lemma, body[1:])
+    return len(py_publics(body)) == py_method_count(body)
+
+
+def py_count_lemma(body):
+    return py_fusion_lemma(body) and py_len_lemma(body)
+
+
+@contract(H + "count_methods", props=["C16"], types=dict(class_node=PyNode), returns=Int)
+class CountMethods:
+    def requires(class_node):
+        return class_node is not None
+
+    def reveals(class_node):
+        return reveal(py_funcs, class_node.body) and reveal(py_countables, py_funcs(class_node.body))
+
+    def lemmas_public_methods(class_node):
+        return py_count_lemma(class_node.body)
+
+    def ensures_public_methods(class_node, result):
+        return result == py_method_count(class_node.body)
+
+
+def py_is_code_line(line):
+    """Docs: lines of code exclude blank lines and comment lines."""
+    return line.strip() != "" and not line.strip().startswith("#")
+
+
+def py_class_lines(class_node, source):
+    """Source lines lineno .. end_lineno of the class (1-based, inclusive)."""
+    return source.split("\n")[class_node.lineno - 1:(class_node.end_lineno if class_node.end_lineno else class_node.lineno)]
+
+
+def py_code_line_count(lines):
+    return sum(1 for line in lines if py_is_code_line(line))
+
+
+@lemma(props=["C16"], types=dict(lines=SeqOf(Str)), name="py-loc-filter-length-is-count")
+def py_loc_lemma(lines):
+    """The list built by heuristics.count_loc has as many elements as there are code lines."""
+    if len(lines) == 0:
+        return len([s for line in lines if (s := line.strip()) and not s.startswith("#")]) == py_code_line_count(lines)
+    ih(py_loc_lemma, lines[1:])
+    return len([s for line in lines if (s := line.strip()) and not s.startswith("#")]) == py_code_line_count(lines)
+
+
+@contract(H + "count_loc", props=["C16"], types=dict(class_node=PyNode, source=Str), returns=Int)
+class CountLoc:
+    def requires(class_node, source):
+        return class_node is not None
+
+    def lemmas_code_lines(class_node, source):
+        return py_loc_lemma(py_class_lines(class_node, source))
+
+    def ensures_code_lines(class_node, source, result):
+        return result == py_code_line_count(py_class_lines(class_node, source))
+
+
+# ====================================================================================== python_analyzer.py
+PA = "src/linters/srp/python_analyzer.py::"
+ClassMetrics = Rec("ClassMetrics", as_dict=True, class_name=Str, method_count=Int, loc=Int, has_keyword=Bool,
+                   line=Int, column=Int)
+
+
+def has_keyword(name, keywords):
+    """Property text: the name contains a configured responsibility keyword."""
+    return any(keyword in name for keyword in keywords)
+
+
+@contract(PA + "find_all_classes", props=["C16"], types=dict(tree=PyNode, classes=SeqOf(PyNode), node=PyNode),
+          returns=SeqOf(PyNode))
+class PyFindAllClasses:
+    """Every class definition reachable from the tree (ast.walk is trusted), each exactly once, in walk order."""
+    def requires(tree):
+        return tree is not None
+
+    def value(tree):
+        return [node for node in tree.walk if isinstance(node, ast.ClassDef)]
+
+    def inv0(tree, classes, done, rest):
+        return classes == [node for node in done if isinstance(node, ast.ClassDef)] and done + rest == tree.walk
+
+
+@contract(PA + "analyze_class", props=["C16"], types=dict(class_node=PyNode, source=Str, config=SRPConfigT),
+          returns=ClassMetrics)
+class PyAnalyzeClass:
+    def requires(class_node, source, config):
+        return class_node is not None
+
+    def ensures_metrics(class_node, source, config, result):
+        return (result["method_count"] == py_method_count(class_node.body)
+                and result["loc"] == py_code_line_count(py_class_lines(class_node, source))
+                and result["has_keyword"] == has_keyword(class_node.name, config.keywords))
+
+    def ensures_header_position(class_node, source, config, result):
+        return (result["class_name"] == class_node.name and result["line"] == class_node.lineno
+                and result["column"] == class_node.col_offset)
